@@ -415,6 +415,107 @@ def _rank_off(e, f, depth=0):
     return rk(e)
 
 
+class _NoDiag(Exception):
+    pass
+
+
+def _diag_eval(e, R, consts):
+    """value of an expression over the diagonal (R00, R11, R22) of the rotation matrix; shape / dtype wrappers are transparent"""
+    if isinstance(e, ast.Constant) and isinstance(e.value, (int, float, bool)):
+        return e.value
+    if isinstance(e, ast.Name):
+        if e.id in consts:
+            return consts[e.id]
+        raise _NoDiag('name ' + e.id)
+    if isinstance(e, ast.Subscript) and isinstance(e.slice, ast.Tuple):
+        idx = [x.value for x in e.slice.elts if isinstance(x, ast.Constant) and isinstance(x.value, int) and not isinstance(x.value, bool)]
+        rest = [x for x in e.slice.elts if not (isinstance(x, ast.Constant) and (x.value is Ellipsis or isinstance(x.value, int)))]
+        if len(idx) == 2 and not rest:
+            if idx[0] == idx[1] and idx[0] in (0, 1, 2):
+                return R[idx[0]]
+            raise _NoDiag('off-diagonal entry')
+    if isinstance(e, ast.UnaryOp):
+        v = _diag_eval(e.operand, R, consts)
+        if isinstance(e.op, ast.USub):
+            return -v
+        if isinstance(e.op, (ast.Invert, ast.Not)):
+            return not v
+        if isinstance(e.op, ast.UAdd):
+            return v
+    if isinstance(e, ast.BinOp):
+        a, b = _diag_eval(e.left, R, consts), _diag_eval(e.right, R, consts)
+        if isinstance(e.op, ast.Add):
+            return a + b
+        if isinstance(e.op, ast.Sub):
+            return a - b
+        if isinstance(e.op, ast.Mult):
+            return (a and b) if isinstance(a, bool) and isinstance(b, bool) else a * b
+        if isinstance(e.op, ast.BitAnd):
+            return bool(a) and bool(b)
+        if isinstance(e.op, ast.BitOr):
+            return bool(a) or bool(b)
+        if isinstance(e.op, ast.Div) and b != 0:
+            return a / b
+    if isinstance(e, ast.Compare) and len(e.ops) == 1:
+        a, b = _diag_eval(e.left, R, consts), _diag_eval(e.comparators[0], R, consts)
+        op = type(e.ops[0])
+        table = {ast.Lt: a < b, ast.LtE: a <= b, ast.Gt: a > b, ast.GtE: a >= b}
+        if op in table:
+            return table[op]
+    if isinstance(e, ast.Call):
+        d = dotted(e.func) or ''
+        nm = d.split('.')[-1] if d else (e.func.attr if isinstance(e.func, ast.Attribute) else '')
+        recv = e.func.value if isinstance(e.func, ast.Attribute) and not d.startswith('torch.') else (e.args[0] if e.args else None)
+        if recv is not None and nm in ('abs', 'absolute'):
+            return abs(_diag_eval(recv, R, consts))
+        if recv is not None and nm in ('unsqueeze', 'squeeze', 'type_as', 'repeat', 'expand', 'expand_as', 'float', 'double', 'to', 'clone', 'bool', 'logical_not', 'contiguous', 'view', 'reshape'):
+            v = _diag_eval(recv, R, consts)
+            return (not v) if nm == 'logical_not' else v
+        if nm in ('logical_and', 'logical_or') and len(e.args) == 2:
+            a, b = _diag_eval(e.args[0], R, consts), _diag_eval(e.args[1], R, consts)
+            return (a and b) if nm == 'logical_and' else (a or b)
+    raise _NoDiag('expression `%s`' % src(e)[:40])
+
+
+def _pivot_selection(repo, f, res):
+    """Which pivot divides is decided by masks over the DIAGONAL of R.  The diagonals of rotation matrices are the points of the tetrahedron
+    1 +- R00 +- R11 +- R22 >= 0 (each of the four pivots is 4 q_k^2 >= 0, their sum is 4): on a grid of that tetrahedron every mask is evaluated (a
+    finite table of linear sign conditions), and the pivot it selects must stay away from zero - the largest of the four is >= 1, a selection that lets a
+    pivot reach 0 on admissible rotations divides by zero there (e.g. `R22.abs() < atol` sends R22 = -1 to the w / z branches: diag(1, -1, -1) has t_w = 0)."""
+    groups, guards, inl = masks.analyse_function(f.node)
+    sums = [g for g in groups if g.kind == 'sum']
+    den = [g for g in sums if not all(any(isinstance(x, ast.Call) and dotted(x.func) == 'torch.stack' for x in m[1] if not isinstance(x, tuple)) for m in g.members)]
+    if len(den) != 1:
+        raise AnalysisError('C11.PIVOT: the masked sum of pivots (the divisor) was not found in mat2SO3')
+    consts = {}
+    for a, dflt in zip(reversed(f.node.args.args), reversed(f.node.args.defaults)):
+        if isinstance(dflt, ast.Constant) and isinstance(dflt.value, (int, float)) and not isinstance(dflt.value, bool):
+            consts[a.arg] = dflt.value
+    steps = [i / 4.0 for i in range(-4, 5)]
+    grid = [(a, b, c) for a in steps for b in steps for c in steps
+            if 1 + a - b - c >= 0 and 1 - a + b - c >= 0 and 1 - a - b + c >= 0 and 1 + a + b + c >= 0]
+    for fm, rest, mexpr, _ in den[0].members:
+        tterm = [x for x in rest if not isinstance(x, tuple)]
+        if len(tterm) != 1:
+            raise AnalysisError('C11.PIVOT: a term of the divisor is not pivot * mask')
+        worst = None
+        try:
+            for R in grid:
+                if _diag_eval(mexpr, R, consts):
+                    t = _diag_eval(tterm[0], R, consts)
+                    if worst is None or t < worst[0]:
+                        worst = (t, R)
+        except _NoDiag as ex:
+            raise AnalysisError('C11.PIVOT: the selection mask `%s` is not a condition on the diagonal of R (%s)' % (src(mexpr)[:50], ex))
+        ok = worst is None or worst[0] >= 0.5
+        res.inst({'function': f.fq, 'mask': src(mexpr)[:60], 'smallest selected pivot over the diagonal grid': None if worst is None else worst[0],
+                  'at diag(R)': None if worst is None else list(worst[1]), 'bounded away from zero': ok}, ('sel', dump(mexpr)))
+        if not ok:
+            res.add(Finding('C11.PIVOT', f, 'under the mask `%s` the divisor pivot `%s` goes down to %.3g on admissible rotations (diag R = %s): the extraction divides by '
+                            'sqrt of it, so these rotations (and their neighbourhood) come out as NaN / with lost digits; the branch must select a pivot >= 1'
+                            % (src(mexpr)[:60], src(tterm[0])[:40], worst[0], list(worst[1])), construct='selected pivot vanishes|' + src(tterm[0])[:30]))
+
+
 @guarded
 def rule_pivots(repo, tier):
     """The quaternion is extracted from R by dividing a candidate by sqrt(t) with t = 1 + s0 R00 + s1 R11 + s2 R22 = 4 q_k^2 for one of the four sign
@@ -477,6 +578,7 @@ def rule_pivots(repo, tier):
     res.inst({'function': f.fq, 'pivots reaching the normalisation': sorted(got), 'all four': got == want}, 'pivots')
     if not pivots:
         raise AnalysisError('C11.PIVOT: no pivot expression 1 +- R00 +- R11 +- R22 found in mat2SO3')
+    _pivot_selection(repo, f, res)
     for miss in sorted(want - got):
         comp = {(1, -1, -1): 'x', (-1, 1, -1): 'y', (-1, -1, 1): 'z', (1, 1, 1): 'w'}[miss]
         res.add(Finding('C11.PIVOT', f, 'the pivot 4 q_%s^2 = 1 %+d R00 %+d R11 %+d R22 never reaches the normalisation of the returned quaternion: rotations whose '
